@@ -135,6 +135,7 @@ def candEntries : List (String × Entry) :=
     ("negfrom",    { fromNeg := true }),
     ("badkey",     { keyBad := true }),
     ("heldkey",    { lockHeld := true }),
+    ("name65k",    { nameLong := true }),
     ("valid",      {}),
     ("enginepanic", { engine := .panics }),
     ("engineerr",  { engine := .err .internal }) ]
